@@ -60,6 +60,7 @@ type schedEvent struct {
 
 // c09 schedules: TLC-chosen lock-acquisition orders are forced on real goroutines through the gate hook.
 func c09Sched(c *ctx) {
+	singleThreaded = false
 	f, err := os.Open(c.arg("orders", "orders.txt"))
 	if err != nil {
 		fmt.Fprintln(os.Stderr, err)
@@ -319,6 +320,7 @@ func c09Hist(c *ctx) {
 // stress under the race detector: many goroutines, mixed calls, shared objects; the hook trace and any race
 // report are turned into events
 func c09Stress(c *ctx) {
+	singleThreaded = false
 	dur := time.Duration(c.argInt("ms", 4000)) * time.Millisecond
 	ng := c.argInt("g", 16)
 	var mu sync.Mutex
@@ -494,6 +496,7 @@ func c09Stress(c *ctx) {
 
 // totality of the year computation (it runs under the lock, which has no deferred unlock)
 func c09Total(c *ctx) {
+	singleThreaded = false
 	lo, hi := -2000, 12000
 	bad := [][]interface{}{}
 	n := 0
